@@ -895,6 +895,15 @@ func (g *coreGen) probeStmts() []any {
 	out = append(out, m(cn("forin", "v1", "pk", "v2", "pv", "n", "o0", "b", m(cn("block", "b", []any{pr(str("po"), vr("pk"), vr("pv")),
 		ex(cn("asgidx", "n", "o0", "key", str("b"), "op", "=", "e", num(31)))})))))
 	out = append(out, m(cn("forin", "v1", "pa", "v2", "", "n", "pa", "b", m(cn("block", "b", []any{pr(str("self"), vr("pa"))})))))
+	// a for-in over an empty array / object runs no pass and leaves loop variables that hold values alone
+	out = append(out, ex(cn("asg", "n", "pe", "op", "=", "e", num(5))), ex(cn("asg", "n", "pi", "op", "=", "e", num(6))))
+	out = append(out, ex(cn("asg", "n", "pem", "op", "=", "e", m(cn("arr", "items", []any{})))))
+	out = append(out, ex(cn("asg", "n", "pom", "op", "=", "e", m(cn("obj", "keys", []any{}, "vals", []any{})))))
+	out = append(out, m(cn("forin", "v1", "pe", "v2", "pi", "n", "pem", "b", m(cn("block", "b", []any{pr(str("never"), vr("pe"))})))))
+	out = append(out, pr(str("emp"), vr("pe"), vr("pi")))
+	out = append(out, m(cn("forin", "v1", "pe", "v2", "", "n", "pom", "b", m(cn("block", "b", []any{pr(str("never"), vr("pe"))})))))
+	out = append(out, m(cn("forin", "v1", "pi", "v2", "pe", "n", "pom", "b", m(cn("block", "b", []any{pr(str("never"), vr("pe"))})))))
+	out = append(out, pr(str("emo"), vr("pe"), vr("pi")))
 	// an object that gains a member through another reference and through a parameter between two for-ins
 	out = append(out, m(cn("forin", "v1", "pk", "v2", "", "n", "o0", "b", m(cn("block", "b", []any{pr(str("k1"), vr("pk"))})))))
 	out = append(out, ex(cn("asgidx", "n", "oa", "key", str("c"), "op", "=", "e", num(32))))
@@ -1322,10 +1331,18 @@ func checkCore(c *Ctx, n int, seedMix int64) {
 	var sb strings.Builder
 	var idx []int
 	pool.Map(jobs, func(i int, r Result) {
+		maxLines := 400
 		switch r.Class {
-		case "budget", "timeout":
+		case "timeout":
 			c.Count("inconclusive", 1)
 			return
+		case "budget":
+			// the step budget is deterministic and 25 times the model's fuel: the run goes to the model with the outcome
+			// "budget" and what it printed so far.  If JqCore finishes the program inside its fuel (and the defined core),
+			// the real run had to finish as well: OutPrefix / FinalMatch reject it.  If the model runs out of fuel or
+			// leaves the core first, the run is open and nothing is compared.
+			c.Count("core_budget_runs_sent_to_model", 1)
+			maxLines = 6000
 		case "ok", "runtime":
 		default:
 			c.Violation("core-"+r.Class, map[string]any{"program": string(jobs[i].Prog), "got_class": r.Class, "got_err": r.ErrMsg, "detail": r.Detail,
@@ -1336,7 +1353,11 @@ func checkCore(c *Ctx, n int, seedMix int64) {
 		if len(r.Stdout) > 0 {
 			lines = strings.Split(strings.TrimSuffix(string(r.Stdout), "\n"), "\n")
 		}
-		if len(lines) > 400 {
+		if r.Class == "budget" && len(lines) > maxLines+1 {
+			// a model run prints fewer than maxLines lines inside its fuel (a printed line costs at least two steps):
+			// one line more than that is enough to tell a longer real output from any output the model can finish with
+			lines = lines[:maxLines+1]
+		} else if len(lines) > maxLines {
 			return
 		}
 		b, _ := json.Marshal(map[string]any{"prog": progs[i], "out": lines, "outcome": r.Class})
